@@ -373,8 +373,22 @@ fn typed_value(rng: &mut Rng, i: usize) -> u32 {
     }
 }
 
-pub fn gen_spec(rng: &mut Rng) -> AssetSpec {
+/// A spec with NOTHING present, whatever `AssetSpec::new()` chooses to pre-set: the workloads
+/// state every presence flag themselves.
+pub fn blank_spec() -> AssetSpec {
     let mut s = AssetSpec::new();
+    s.name = None;
+    for i in 0..NSTR {
+        *str_field(&mut s, i) = None;
+    }
+    for i in 0..NTYPED {
+        typed_set(&mut s, i, false, 0);
+    }
+    s
+}
+
+pub fn gen_spec(rng: &mut Rng) -> AssetSpec {
+    let mut s = blank_spec();
     s.name = if rng.chance(1, 8) { None } else { Some(text(rng)) };
     let mode = rng.below(5);
     let density = match mode {
@@ -405,7 +419,7 @@ pub fn run(cx: &mut Ctx) {
     cx.require(REQUIRED);
     cx.rule = "header flags random u32; 0..=20 specs; field presence: all absent, all present, each of the 33 optional strings and 18 typed fields alone (directed, 51 cases, each followed by a second spec so a wrong width shifts something visible), every pair of adjacent fields, random masks; values: asymmetric colour/bitflag bytes, f32 incl. NaN payloads, +-0, inf, subnormal, u32 boundary values, strings incl. empty and 2-byte characters. Each binary is serialized, its records walked on the strictly parsed image (long form iff an extended field is present; flag bytes + 4 + 4*popcount per record; 4 terminator bytes), re-read by the library and compared field by field (f32 by bits), and re-serialized. non-trivial = a spec with >=1 extended field followed by another spec; binaries with 255..65537 specs; one string the Shift-JIS encoder cannot express in 1 of 60 cases (must be refused or kept intact); distinct by value hash".into();
     let miri = cfg!(miri);
-    let mut follower = AssetSpec::new();
+    let mut follower = blank_spec();
     follower.name = Some("follower".into());
     follower.body_model = Some("bm".into());
     typed_set(&mut follower, 6, true, 0xDEAD_BEEF);
@@ -417,11 +431,11 @@ pub fn run(cx: &mut Ctx) {
     cx.case("all_absent_all_present", |c| {
         c.sit("all_absent");
         c.sit("all_present");
-        let mut none = AssetSpec::new();
+        let mut none = blank_spec();
         check(c, 1, &[none.clone(), follower.clone()], "all_absent_nameless");
         none.name = Some("n".into());
         check(c, 1, &[none.clone(), follower.clone()], "all_absent");
-        let mut all = AssetSpec::new();
+        let mut all = blank_spec();
         all.name = Some("all".into());
         for i in 0..NSTR {
             *str_field(&mut all, i) = Some(format!("s{}", i));
@@ -434,7 +448,7 @@ pub fn run(cx: &mut Ctx) {
     for i in 0..(NSTR + NTYPED) {
         cx.case("each_field_alone", |c| {
             c.sit("each_field_alone");
-            let mut s = AssetSpec::new();
+            let mut s = blank_spec();
             s.name = Some("one".into());
             if i < NSTR {
                 *str_field(&mut s, i) = Some(format!("v{}", i));
